@@ -5,7 +5,8 @@ Alpha24 == {32, 0, 13, 10, 12, 37, 47, 35, 40, 41, 60, 62, 91, 92, 49, 56, 97, 9
 \* context sub-alphabets (interesting behaviours need 5-6 bytes inside one lexical context)
 AlphaString == {32, 13, 10, 40, 41, 92, 49, 52, 48, 110}
 AlphaHexName == {60, 62, 47, 35, 97, 49, 103, 32, 0, 10}
-AlphaNumKw == {43, 45, 46, 49, 120, 32, 47, 91, 37, 10}
+\* (101 = e: the letter exponent notation would use; PDF has no exponents: `1.5e3` is the real 1.5 and the keyword e3)
+AlphaNumKw == {43, 45, 46, 49, 120, 101, 32, 47, 91, 37, 10}
 AlphaComment == {37, 13, 10, 120, 32, 40}
 AlphaEsc == {40, 41, 92, 13, 10, 120}
 AlphaOct == {40, 41, 92, 49, 55, 56}
